@@ -355,7 +355,9 @@ func c19Enumerated(c *Case) {
 	}
 	// a match directly inside the body of another match's case: each case has its own bindings
 	rest := V("rest")
-	inner := func(subj Expr, body Expr, pats ...Expr) Expr { return &MatchExpr{Subj: subj, Cases: []*MatchCase{with(ex(body), pats...)}} }
+	inner := func(subj Expr, body Expr, pats ...Expr) Expr {
+		return &MatchExpr{Subj: subj, Cases: []*MatchCase{with(ex(body), pats...)}}
+	}
 	forms = append(forms,
 		form{"nested match binding the same name: outer value afterwards", Arr(N("1"), Arr(N("2"), N("3"))), []*MatchCase{with(ex(Bin("+", &Paren{X: inner(rest, Bin("+", Bin("*", x, N("10")), y), Arr(x, y))}, x)), Arr(x, rest))}},
 		form{"nested match binding the same name: outer value before and after", Arr(N("1"), Arr(N("2"), N("3"))), []*MatchCase{with(ex(Arr(x, inner(rest, Arr(x, y), Arr(x, y)), x)), Arr(x, rest))}},
@@ -372,6 +374,18 @@ func c19Enumerated(c *Case) {
 		form{"array pattern with literals and a nested pattern: an early mismatch decides", Arr(S("mul"), N("4"), Arr(N("0"))), []*MatchCase{with(ex(S("add")), Arr(S("add"), x, Arr(N("0")))), with(ex(Arr(S("mul"), x)), Arr(S("mul"), x, Arr(N("0"))))}},
 		form{"array pattern: first and last literal match, middle differs", Arr(N("1"), N("5"), N("3")), []*MatchCase{with(ex(S("wrong")), Arr(N("1"), N("2"), N("3"))), with(ex(S("other")), x)}},
 	)
+	// a subject that was never assigned: v == literal is false for every literal, so only a name matches
+	un := V("neverset")
+	for _, lit := range []struct {
+		name string
+		e    Expr
+	}{{"0", N("0")}, {"the empty string", S("")}, {"false", &BoolLit{V: false}}, {"null", &NullLit{}}, {"1", N("1")}} {
+		forms = append(forms,
+			form{"unset subject against the literal " + lit.name + " then a name", un, []*MatchCase{with(ex(S("literal")), lit.e), with(ex(S("name")), x)}},
+			form{"unset subject against the literal " + lit.name + " only", un, []*MatchCase{with(ex(S("literal")), lit.e)}},
+			form{"unset element against the literal " + lit.name + " inside an array pattern", Arr(un, N("2")), []*MatchCase{with(ex(S("literal")), Arr(lit.e, N("2"))), with(ex(S("name")), Arr(x, N("2")))}},
+		)
+	}
 	for _, f := range forms {
 		p := &Program{Items: []any{&Rule{Kind: "BEGIN", Body: Blk(Pr(S("value"), jsonOf(&MatchExpr{Subj: f.subj, Cases: f.cs})), Pr(S("after")))}}}
 		c.NonTrivial("form:" + f.name)
@@ -390,7 +404,7 @@ func c19Cases(tier string) int {
 func init() {
 	register(&Prop{
 		ID: "C19", Level: "exploration",
-		Rule:     "sampled: a target subject (scalar of every kind, arrays to length 4 nested to depth 3) and a case list of 1-5 cases x 1-4 alternatives built so that a chosen (case, alternative) is the FIRST that matches: earlier alternatives are non-matching by construction (other literal, array pattern of wrong length, right length with one differing element, array pattern on a scalar), the chosen one is derived from the subject (literals incl. equal-by-coercion, identifiers, _ , nested array patterns), later ones carry tripwires (bodies that print, the bad-escape literal '\\q' that errs only if evaluated); expression and block bodies use the bindings; match nested in match and in functions; applied to 1-5 subjects per run. 20 enumerated forms (failing alternative kind x following kind, first of two matching, none matching, length +-1, coercion). Non-trivial = >= 2 cases or alternatives and the selected alternative is not the first; distinct by program+input.",
+		Rule:     "sampled: a target subject (scalar of every kind, arrays to length 4 nested to depth 3) and a case list of 1-5 cases x 1-4 alternatives built so that a chosen (case, alternative) is the FIRST that matches: earlier alternatives are non-matching by construction (other literal, array pattern of wrong length, right length with one differing element, array pattern on a scalar), the chosen one is derived from the subject (literals incl. equal-by-coercion, identifiers, _ , nested array patterns), later ones carry tripwires (bodies that print, the bad-escape literal '\\q' that errs only if evaluated); expression and block bodies use the bindings; match nested in match and in functions; applied to 1-5 subjects per run. 46 enumerated forms (incl. 15 with an unset subject or element: only a name matches it) (failing alternative kind x following kind, first of two matching, none matching, length +-1, coercion). Non-trivial = >= 2 cases or alternatives and the selected alternative is not the first; distinct by program+input.",
 		NumCases: c19Cases,
 		Run: func(c *Case) {
 			if c.Idx == 0 {
@@ -400,6 +414,6 @@ func init() {
 			}
 		},
 		MinConclusive: func(tier string) int { return 5000 },
-		Assumptions:   []string{"match semantics of DESIGN.md section 3.9; literal pattern against a container subject (error vs no match), repeated names and unset subjects are [P] and not generated"},
+		Assumptions:   []string{"match semantics of DESIGN.md section 3.9; literal pattern against a container subject (error vs no match), repeated names are [P] and not generated"},
 	})
 }
